@@ -308,9 +308,11 @@ func (r *Raft) onSnapshotTaken(t snapTaken) {
 		if r.state == Leader {
 			for _, repl := range r.ldr.repls {
 				matchIndex := repl.status.matchIndex
-				if matchIndex > 0 && matchIndex < t.meta.index {
+				if matchIndex > 0 {
 					// replication still reads entry matchIndex through its
 					// current log view, for prevLogTerm of its next request
+					// (also when matchIndex is this snapshot's index: a
+					// later snapshot makes it read the entry again)
 					matchIndex--
 				}
 				if matchIndex < nowCompact {
